@@ -66,12 +66,15 @@ Theorem C17_reversible_sound_partial :
 Proof. exact reversible_sound_static. Qed.
 Print Assumptions C17_reversible_sound_partial.
 
-(** ... and when the planner is given the inspection of the state it will run on ([from = inspect d],
+(** The characterisation that does hold when the planner is given the inspection of the state it will run on ([from = inspect d],
     what the CLI does), [from_ok] follows from a condition on the state alone: [idx_ok d] -- no inline
     UNIQUE constraints, and every explicit index has a name outside the sqlite_autoindex namespace, an
     inspected form that is a fixed point of [inspect_index], that CREATE INDEX accepts and that the
-    rows satisfy when UNIQUE. *)
-Theorem C17_reversible_sound_inspect_partial :
+    rows satisfy when UNIQUE.  The exceptions are exactly the refuting inputs: an inline UNIQUE
+    ([idx_ok] fails: known finding C17-autoindex-drop-wrong-index), a created table that cannot be
+    dropped again ([droppable_along] fails: C17_reversible_sound_refuted), and -- outside this
+    theorem -- DropTable changes (C17_reversible_sound_droptables_partial). *)
+Theorem C17_reversible_sound_except :
   forall (to : xschema) (cs : list schange) (p : plan) (d d1 : db),
   db_wf d = true -> names_ok d -> idx_ok d -> xschema_wf to = true -> no_drop_table cs = true ->
   PlanChanges (inspect d) to cs = Some p -> p_reversible p = true ->
@@ -80,7 +83,7 @@ Theorem C17_reversible_sound_inspect_partial :
   exec_all d (up_stmts (p_changes p)) = EngineModel.Ok d1 ->
   exists d2, exec_all d1 (down_stmts (p_changes p)) = EngineModel.Ok d2 /\ sim d d2.
 Proof. exact reversible_sound_inspect. Qed.
-Print Assumptions C17_reversible_sound_inspect_partial.
+Print Assumptions C17_reversible_sound_except.
 
 (** the same with the conditions stated along the run ([conds]: each DROP INDEX arm faithful and
     each created table droppable in the state the change executes in) instead of [from_ok] /
